@@ -31,6 +31,11 @@ def main() -> int:
     sys.path.insert(0, str(common.REPO))
     os.environ.setdefault(common.GUARD, "1")
 
+    # two runs of the same property (same scratch tag) share a build directory and an evidence file: serialise them
+    import fcntl  # pylint: disable=import-outside-toplevel
+    common.BUILD.mkdir(exist_ok=True)
+    lock = open(common.BUILD / f".lock.{prop}.{common.SCRATCH or 'main'}", "w")
+    fcntl.flock(lock, fcntl.LOCK_EX)
     ctx = common.Ctx(prop=prop, tier=args.tier, seed=seed)
     if not args.replay:
         for old in common.REPLAYS.glob(f"{prop}_*.json"):
